@@ -18,8 +18,8 @@ def run(ctx):
         rule=("non-trivial: grpc/json cases with >=2 entries or metadata on the first entry; scenario cases with >=2 shots "
               "and at least one call definition carrying metadata; distinct = distinct case lines"),
         key_fn=key_fn,
-        translators=[("grpcstatus", "GrpcStatusGen.v")],
-        bridge_files=["Gen/GrpcStatus_bridge.v"],
+        translators=[("grpcstatus", "GrpcStatusGen.v"), ("grpcdial", "GrpcDialGen.v")],
+        bridge_files=["Gen/GrpcStatus_bridge.v", "Gen/GrpcDial_bridge.v", "Properties/C20_wire.v"],
         trusted=[
             "translator harness/cmd/translate grpcstatus (ConvertGrpcStatus switch -> Gen/GrpcStatusGen.v, used for the sample codes)",
             "extraction: ExtrOcamlBasic only; OCaml driver ocaml/C20/main.ml + ocaml/common/conv.ml",
